@@ -389,7 +389,9 @@ where
         }
         // check the eventually properties
         for (i, property) in properties.iter().enumerate() {
-            if ebits.contains(i) {
+            // The bits of an already discovered property are stale (its condition is no longer
+            // evaluated above), so never replace an existing discovery.
+            if ebits.contains(i) && !discoveries.contains_key(property.name) {
                 // Races other threads, but that's fine.
                 discoveries.insert(property.name, fingerprint_path.clone());
             }
